@@ -17,6 +17,7 @@ PendingTimeout(P) == /\ P.live /\ P.sel # None /\ P.result = None /\ P.sel[1].st
 \* nothing is in flight, nothing is runnable, and no clock advance can change that
 Quiescent ==
   /\ \A w \in Workers : cmdQ[w] = <<>> /\ evtQ[w] = <<>> /\ runq[w] = <<>>
+  /\ backend.inflight = <<>>
   /\ \A p \in Pids : ~PendingTimeout(proc[p])
 
 (* ---------------- C04 ---------------- *)
